@@ -64,6 +64,45 @@ def romanValueOk (n : Nat) : Bool :=
 
 theorem romanValueOk_all : (List.range 4000).all romanValueOk = true := by decide +kernel
 
+theorem romanDigitValue_le (c : Nat) : Spec.Labels.romanDigitValue c ≤ 1000 := by
+  unfold Spec.Labels.romanDigitValue
+  repeat' split
+  all_goals omega
+
+theorem romanValueAux_snd_le (t : Text) : (Spec.Labels.romanValueAux t).2 ≤ 1000 := by
+  cases t with
+  | nil => simp [Spec.Labels.romanValueAux]
+  | cons c tl => simp only [Spec.Labels.romanValueAux]; exact romanDigitValue_le c
+
+/-- `k` leading `m` are never subtracted: they add `1000 k`. -/
+theorem romanValue_ms (t : Text) : ∀ k : Nat,
+    Spec.Labels.romanValue ((List.replicate k [109]).flatten ++ t) = 1000 * (k : Int) + Spec.Labels.romanValue t
+  | 0 => by simp
+  | k + 1 => by
+    have ih := romanValue_ms t k
+    have hle := romanValueAux_snd_le ((List.replicate k [109]).flatten ++ t)
+    unfold Spec.Labels.romanValue at ih ⊢
+    simp only [List.replicate_succ, List.flatten_cons, List.cons_append, List.nil_append,
+      Spec.Labels.romanValueAux]
+    have hd : Spec.Labels.romanDigitValue 109 = 1000 := by decide
+    rw [hd]
+    have : ¬ (1000 < (Spec.Labels.romanValueAux ((List.replicate k [109]).flatten ++ t)).2) := by omega
+    simp only [this, if_false, ih]
+    omega
+
+/-- Sanity of the specification for EVERY `n`: the numeral reads back as `n`. -/
+theorem romanValue_all (n : Nat) :
+    Spec.Labels.romanValue (Spec.Labels.romanAux Spec.Labels.romanTable n) = (n : Int) := by
+  have hk := all_range_lift romanValueOk_all (n % 1000) (by have := Nat.mod_lt n (by decide : 1000 > 0); omega)
+  unfold romanValueOk at hk
+  have hk' := eq_of_beq hk
+  rw [romanAux_table] at hk'
+  have h1 : n % 1000 / 1000 = 0 := by omega
+  have h2 : n % 1000 % 1000 = n % 1000 := by omega
+  simp only [h1, h2, List.replicate_zero, List.flatten_nil, List.nil_append] at hk'
+  rw [romanAux_table, romanValue_ms, hk']
+  omega
+
 def alphaOk (n : Nat) : Bool :=
   n == 0 || isOk (formatIntAlpha (n : Int)) (List.replicate ((n - 1) / 26 + 1) (97 + (n - 1) % 26))
 
